@@ -47,7 +47,55 @@ def _cases(rng, tier):
         h2 = gen.ngon(lat - 0.4 * R, lng + 0.4 * R / math.cos(lat), 0.07 * R, 4, None)
         loops = [[(a, gen.norm_lng(b)) for a, b in lp] for lp in (outer, h1, h2)]
         out.append((loops, lat, lng, R, rng.choice([3, 4]), "two-holes"))
+    # very large / very wide polygons (continental bands, more than a hemisphere of longitude, both sides of the
+    # prime meridian, across the antimeridian): candidates are ALL cells of a coarse resolution
+    for k in range(35 if tier == "quick" else 210):
+        lat0 = rng.uniform(-1.0, 0.7)
+        lat1 = lat0 + rng.uniform(0.15, 0.5)
+        mode = k % 7
+        if mode >= 5:      # more than a hemisphere of longitude (180..340 degrees), anywhere, either representation
+            w = rng.uniform(math.pi + 0.2, 2 * math.pi - 0.35)
+            a = rng.uniform(-math.pi, math.pi) if mode == 5 else rng.uniform(0.05, math.pi - 0.05)
+            b = a + w
+            if mode == 5 and b > math.pi:      # keep it representable without crossing: shift into [-pi, pi]
+                a, b = -w / 2 + rng.uniform(-0.15, 0.15), w / 2 + rng.uniform(-0.15, 0.15)
+                a, b = max(a, -math.pi + 0.01), min(b, math.pi - 0.01)
+        elif mode == 0:      # starts west of the prime meridian, runs east to just before 180E
+            a, b = -rng.uniform(0.1, 0.9), math.pi - rng.uniform(0.01, 0.3)
+        elif mode == 1:    # starts just east of the prime meridian, crosses the antimeridian, ends in the west
+            a, b = rng.uniform(0.02, 0.6), math.pi + rng.uniform(0.3, 2.0)
+        elif mode == 2:    # mirror image of mode 0
+            a, b = -math.pi + rng.uniform(0.01, 0.3), rng.uniform(0.1, 0.9)
+        elif mode == 3:    # ordinary wide band inside one hemisphere or across 0
+            a = rng.uniform(-3.0, 0.5); b = a + rng.uniform(0.8, 2.5)
+        else:              # across the antimeridian, moderate width
+            a = math.pi - rng.uniform(0.1, 1.2); b = math.pi + rng.uniform(0.1, 1.2)
+        nseg = max(2, int((b - a) / 0.6) + 1)
+        top = [(lat1 + rng.uniform(-0.03, 0.03), a + (b - a) * i / nseg) for i in range(nseg + 1)]
+        bot = [(lat0 + rng.uniform(-0.03, 0.03), a + (b - a) * i / nseg) for i in range(nseg + 1)]
+        outer = bot + top[::-1]
+        loops = [[(la, gen.norm_lng(ln)) for la, ln in outer]]
+        res = rng.choice([0, 1, 2, 2] if tier == "quick" else [0, 1, 2, 3])
+        out.append((loops, 0.5 * (lat0 + lat1), gen.norm_lng(0.5 * (a + b)), 0.5 * (b - a), res, "wide-%d" % mode))
+    for k in range(4 if tier == "quick" else 40):
+        lat, lng = rng.uniform(-0.9, 0.9), rng.uniform(-3.1, 3.1)
+        R = rng.uniform(0.15, 0.5)
+        outer = gen.ngon(lat, lng, R, rng.randrange(5, 10), rng, jitter=0.3, phase=rng.uniform(0, 1))
+        loops = [[(a_, gen.norm_lng(b_)) for a_, b_ in outer]]
+        out.append((loops, lat, lng, R, rng.choice([0, 1, 2]), "large"))
     return out
+
+
+_ALL = {}
+
+
+def all_cells(ctx, res):
+    if res not in _ALL:
+        cells = []
+        for a in ctx.c([f"children {gen.hx(gen.mkcell(0, bc, []))} {res}" for bc in range(122)], tag="allcells"):
+            cells += [int(x, 16) for x in a.split()[2:]] if ok(a) else []
+        _ALL[res] = cells
+    return _ALL[res]
 
 
 def streams(rng, tier):
@@ -75,7 +123,10 @@ def evaluate(ctx, rng, tier, focus, budget, broken):
     nops = 0
     for (loops, lat, lng, radius, res, kind) in cases:
         ps = gen.poly_str(loops)
-        cand = candidates(ctx, lat, lng, radius, res, None)
+        if kind.startswith("wide") or kind == "large":
+            cand = all_cells(ctx, res)
+        else:
+            cand = candidates(ctx, lat, lng, radius, res, None)
         if cand is None:
             continue
         cl = ctx.c([f"c2ll {gen.hx(h)}" for h in cand], tag="centres")
